@@ -405,6 +405,10 @@ class TypeMap:
             return self.c(t.args[0])
         if last == "function" and t.args:
             return "struct vf_fn"
+        if last in ("mersenne_twister_engine", "mt19937"):
+            return "struct vf_mt19937"
+        if last == "result_type" and "mersenne_twister_engine" in name:
+            return "unsigned long"
         if last in ("map", "unordered_map") and len(t.args) >= 2:
             a, b = self.c(t.args[0]), self.c(t.args[1])
             tg = self.tag(a) + "__" + self.tag(b)
